@@ -25,6 +25,7 @@ import (
 	"go/token"
 	"path/filepath"
 	"reflect"
+	"strconv"
 
 	"github.com/uber-go/gopatch/internal/data"
 	"github.com/uber-go/gopatch/internal/goast"
@@ -73,7 +74,8 @@ func (m ImportMatcher) Match(file *ast.File, d data.Data) (_ data.Data, ok bool)
 	// A file may import the same path more than once, under different
 	// names. Any of those imports may be the one the patch is after.
 	for _, spec := range file.Imports {
-		if goast.ImportPath(spec) != m.Path {
+		// The path may be anything if an earlier change rewrote it.
+		if path, err := strconv.Unquote(spec.Path.Value); err != nil || path != m.Path {
 			continue
 		}
 		if d, ok := m.matchSpec(spec, d); ok {
